@@ -71,12 +71,13 @@ func (bm *BucketMeta) Size() int64 {
 // ReadBucketMeta returns bucketMeta at given file path name.
 func ReadBucketMeta(name string) (bucketMeta *BucketMeta, err error) {
 	var off int64
-	verifOp("open", name, 0, 0, nil)
-	fd, err := os.OpenFile(name, os.O_CREATE|os.O_RDWR, 0644)
-	defer fd.Close()
+	// read-only and without O_CREATE: reading the meta of a bucket that was never
+	// written must not leave an empty file behind (the next Open failed on it with EOF).
+	fd, err := os.Open(name)
 	if err != nil {
 		return
 	}
+	defer fd.Close()
 
 	buf := make([]byte, BucketMetaHeaderSize)
 	_, err = fd.ReadAt(buf, off)
